@@ -4,6 +4,15 @@
 # existing test suite still passes, runs the demonstration with and without the change (RUN.txt: "<dest path in repo> :: <command>"),
 # then runs ./check <prop> (and further properties) against that worktree. Prints a summary; leaves no worktree behind.
 set -u
+# at most 6 seed tests at a time over all callers (each one builds, runs the suite and a check with 16 coqc)
+mkdir -p /verif/.work
+while :; do
+  for s in 1 2 3 4 5 6; do
+    exec 9>/verif/.work/seedslot.$s
+    if flock -n 9; then break 2; fi
+  done
+  sleep 7
+done
 prop=$1; dir=$(realpath "$2"); shift 2; props="$prop $*"
 name=sv-$prop-$(basename "$dir")-$$
 export GOFLAGS=-mod=mod GOPROXY=off GOSUMDB=off GOTOOLCHAIN=local
